@@ -16,7 +16,7 @@ def jobs(tier, ctx):
       for st in range(8):
         J.append(dict(name='decoder_split.n%d.state%d' % (nb, st), srcs=['@harness/C13/decoder_step.c'],
                   stubs=['@harness/C13/stubs_decoder.c'] + BASE, cuts=CUTS, defs=['MODE_SPLIT=1', 'NB=%d' % nb, 'K=99', 'STATE0=%d' % st],
-                  unwind=104, targets=['copy_chars'], timeout=1500, mem_gb=10,
+                  unwind=104, targets=['copy_chars'], timeout=(1500 if st < 6 else 4000), mem_gb=6,
                   desc='copy_chars(b0..b%d) in one call vs byte-by-byte from the same arbitrary decoder state with machine state %d: same output, state and side calls' % (nb - 1, st),
                   inputs='CR flag, sb_pos, iflags, sb_buf[100], %d input bytes' % nb))
     ne = 4 if tier == 'quick' else 6
